@@ -153,6 +153,34 @@ class ExprMixin:
         for n, v in st.locals.items():
             st.assume(v != o)
         st.fresh.append([o, st.heap.epoch, done])
+        st.unescaped.append(o)
+
+    def mark_escapes(self, st, values):
+        """A fresh object escapes when it is stored into the heap or passed to a call: from then on unknown
+        code may reach it.  Until then a callout cannot change its contents."""
+        if not st.unescaped:
+            return
+        ids = set()
+        todo = [v for v in values if z3.is_expr(v)]
+        seen = set()
+        while todo:
+            e = todo.pop()
+            i = e.get_id()
+            if i in seen:
+                continue
+            seen.add(i)
+            ids.add(i)
+            # only value positions: branches of an ite (a read through select / function application
+            # yields another value, it does not expose the container used as index)
+            if z3.is_app(e) and e.decl().kind() == z3.Z3_OP_ITE:
+                todo.extend([e.arg(1), e.arg(2)])
+        st.unescaped = [o for o in st.unescaped if o.get_id() not in ids]
+
+    def keep_unescaped(self, st, old):
+        for o in st.unescaped:
+            for f in ("$llen", "$litem", "$smem", "$dhas", "$dget", "$olen", "$okey", "$oval"):
+                if f in old.arr:
+                    st.assume(st.heap.sel(f, o) == old.sel(f, o))
 
     def close_heap(self, st):
         for rec in st.fresh:
@@ -194,6 +222,7 @@ class ExprMixin:
         return e
 
     def new_list(self, st, items=()):
+        self.mark_escapes(st, list(items))
         o = self.alloc(st, "list")
         st.heap.store("$llen", o, z3.IntVal(len(items)))
         if items:
@@ -204,6 +233,7 @@ class ExprMixin:
         return o
 
     def new_tuple(self, st, items):
+        self.mark_escapes(st, list(items))
         t = fresh_v("tuple")
         st.assume(smt.typeof(t) == self.eng.ct.cls("tuple"))
         st.assume(smt.tlen(t) == len(items))
@@ -681,19 +711,33 @@ class ExprMixin:
     # ------------------------------------------------------------------
     # dict model (unordered view + ordered view kept consistent for the few uses)
     def dict_set(self, st, d, k, v, assume_absent=False):
+        """d[k] = v.  Forks on key presence (no ite inside the arrays); returns the list of states."""
+        self.mark_escapes(st, [k, v])
         has = st.heap.sel("$dhas", d)
-        present = z3.Select(has, k)
-        n = st.heap.sel("$olen", d)
-        okey = st.heap.sel("$okey", d)
-        oval = st.heap.sel("$oval", d)
-        st.heap.store("$dget", d, z3.Store(st.heap.sel("$dget", d), k, v))
-        st.heap.store("$dhas", d, z3.Store(has, k, z3.BoolVal(True)))
-        # ordered view: append when absent; when present the position keeps its key and the value is updated
-        # (position found through the ghost index function)
-        pos = DICT_POS(okey, k)
-        st.heap.store("$olen", d, z3.If(present, n, n + 1))
-        st.heap.store("$okey", d, z3.If(present, okey, z3.Store(okey, n, k)))
-        st.heap.store("$oval", d, z3.If(present, z3.Store(oval, pos, v), z3.Store(oval, n, v)))
+        present = z3.simplify(z3.Select(has, k))
+        outs = []
+        if not z3.is_true(present) :
+            a = st if (z3.is_false(present) or assume_absent) else st.copy()
+            if not assume_absent:
+                a.assume(z3.Not(z3.Select(has, k)))
+            n = a.heap.sel("$olen", d)
+            a.heap.store("$okey", d, z3.Store(a.heap.sel("$okey", d), n, k))
+            a.heap.store("$oval", d, z3.Store(a.heap.sel("$oval", d), n, v))
+            a.heap.store("$olen", d, n + 1)
+            a.heap.store("$dget", d, z3.Store(a.heap.sel("$dget", d), k, v))
+            a.heap.store("$dhas", d, z3.Store(has, k, z3.BoolVal(True)))
+            outs.append(a)
+            if assume_absent or z3.is_false(present):
+                return outs
+        b = st
+        b.assume(z3.Select(has, k))
+        pos = fresh_int("setpos")
+        n = b.heap.sel("$olen", d)
+        b.assume(z3.And(0 <= pos, pos < n, z3.Select(b.heap.sel("$okey", d), pos) == k))
+        b.heap.store("$oval", d, z3.Store(b.heap.sel("$oval", d), pos, v))
+        b.heap.store("$dget", d, z3.Store(b.heap.sel("$dget", d), k, v))
+        outs.append(b)
+        return outs
 
     def dict_del(self, st, d, k):
         """del d[k] -> list of (state, exc)"""
